@@ -1,6 +1,7 @@
 import IstioModel.C13.ClaTheorems
 import IstioModel.C13.ConcTheorems
 import IstioModel.C13.NetTheorems
+import IstioModel.C13.LbTheorems
 import IstioModel.C13.Svc
 
 /-!
@@ -278,6 +279,45 @@ theorem served_endpoints_exact_net (ops : List Op) (b : Builder) (all : List Gw)
         exact ⟨_, ⟨g, hg, rfl⟩, (filterGroup_endpoints b all g le).mpr (Or.inl ⟨e, he, hr⟩)⟩
       · refine ⟨_, ⟨g, hg, rfl⟩, (filterGroup_endpoints b all g _).mpr (Or.inr ⟨gw, hvia, ?_⟩)⟩
         rw [gateway_weight_per_locality b all hall]
+
+/-- **One served locality, exactly** (the per-locality form of the last clause above; `ogs` is
+    `gs.map (filterGroup b all)`, so this is the out-group OF `g`): its endpoints are the own
+    addresses of the members of `g` the proxy reaches directly, plus one endpoint per gateway that a
+    member of `g` is routed through, weighted with the saturating sum of the shares of the members of `g`. -/
+theorem served_group_exact_net (b : Builder) (all : List Gw) (hall : all.Nodup) (g : Group) (le : LbEp) :
+    le ∈ (filterGroup b all g).eps ↔
+      (∃ e ∈ g.eps, route b all e = .direct le) ∨
+      (∃ gw, (∃ e ∈ g.eps, routedVia b all gw e) ∧
+        le = gwEndpoint gw (min ((g.eps.map (shareOf b all gw)).sum) maxU32)) := by
+  rw [filterGroup_endpoints]
+  simp only [gateway_weight_per_locality b all hall]
+
+/-! ## Locality-weighted distribution on top -/
+
+/-- **served_endpoints_exact with a `distribute` rule.**  After any history, what the proxy is served
+    when the service's DestinationRule distributes traffic by locality: the localities (and their
+    order) are those of `serveCLA` - characterised by `served_endpoints_exact` /
+    `served_endpoints_exact_net` -, and an endpoint is served iff `serveCLA` serves it in a locality that
+    a target of the applied rule names (every locality, if no rule names the proxy's own locality).
+    So under `distribute` the assignment is NOT all members of the subset: the members in localities
+    the rule does not name are left out on purpose. -/
+theorem served_endpoints_exact_lb (ops : List Op) (b : Builder) (all : List Gw) (k : Key) (ploc : Loc)
+    (rules : List Distribute) (lgs : List OutGroup)
+    (h : serveLB b all ploc rules (run Index.empty ops k) = some lgs) :
+    ∃ ogs, serveCLA b all (run Index.empty ops k) = some ogs ∧
+      lgs.map (·.loc) = ogs.map (·.loc) ∧
+      ∀ le, le ∈ lgs.flatMap (·.eps) ↔
+        ∃ og ∈ ogs, le ∈ og.eps ∧
+          match rules.find? (fun r => locMatch ploc r.src) with
+          | none => True
+          | some r => namedBy r og = true := by
+  unfold serveLB at h
+  cases hs : serveCLA b all (run Index.empty ops k) with
+  | none => simp [hs] at h
+  | some ogs =>
+    simp only [hs, Option.map_some, Option.some.injEq] at h
+    subst h
+    exact ⟨ogs, rfl, distribute_groups ploc rules ogs, served_under_distribute ploc rules ogs⟩
 
 /-! ## The CDS-time snapshot of a service's endpoints -/
 
